@@ -111,7 +111,63 @@ std::string compareDense(Dense &d, const std::vector<float> &x, double tol, doub
 }  // namespace
 
 bool prop(Tape &t, Report &R) {
-  int mode = t.weighted({5, 1});
+  int mode = t.weighted({5, 1, 1});
+  if (mode == 2) {
+    // (4b) top level, relative weights: a net of weight m*u pulls like m
+    // copies of weight u.  Same linear system up to float summation order, so
+    // the exported first lower bound may differ by rounding only (+-2 units).
+    R.classify("mode:placeGlobal-duplicated-nets");
+    GenOpts o;
+    o.globalDomain = true;
+    o.maxCells = 10;
+    o.maxLevels = 4;
+    o.anchorPct = 100;
+    o.overfull = false;
+    o.forceScale = 0;
+    o.anchorNear = true;
+    CircuitSpec a = genCircuit(t, o);
+    if (a.nets.empty() || a.nbMovable() == 0) {
+      R.discard("no nets");
+      return true;
+    }
+    CircuitSpec b = a;
+    b.nets.clear();
+    bool varied = false;
+    int firstM = -1;
+    for (auto &n : a.nets) {
+      int m = t.choose(1, 3);
+      float u = (float)t.choose(1, 12) * 0.25f;
+      if (firstM < 0) firstM = m;
+      varied |= m != firstM;
+      n.weight = u * m;
+      NetSpec c = n;
+      c.weight = u;
+      for (int k = 0; k < m; ++k) b.nets.push_back(c);
+    }
+    ColoquinteParameters params(t.choose(1, 9), 7);
+    std::vector<std::vector<int>> first(2);
+    for (int run = 0; run < 2; ++run) {
+      Circuit c = (run ? b : a).build();
+      PlacementCallback cb = [&](PlacementStep st) {
+        if (st == PlacementStep::LowerBound) {
+          first[run] = c.cellX();
+          first[run].insert(first[run].end(), c.cellY().begin(), c.cellY().end());
+          throw HarnessFault();
+        }
+      };
+      StageResult r = runStage(c, kGlobal, params, cb);
+      if (!r.harnessFault) return R.fail("placeGlobal did not reach its first lower bound: " + r.what);
+    }
+    for (size_t i = 0; i < first[0].size(); ++i)
+      if (std::abs(first[0][i] - first[1][i]) > 2) {
+        std::ostringstream m;
+        m << "a net of weight m*u does not pull like m nets of weight u: first lower-bound coordinate " << i << " is "
+          << first[0][i] << " vs " << first[1][i];
+        return R.fail(m.str() + " " + a.json());
+      }
+    if (varied) R.nontrivial(a.hash() ^ 0x55, [&] { return a.json(12); });
+    return true;
+  }
   if (mode == 1) {
     // (4) top level: circuits differing only by a common factor 2^k on the net weights
     R.classify("mode:placeGlobal");
